@@ -974,6 +974,26 @@ def check(fx, rep, tier):
                 f"the recursion of {members[0]} is cut only by its seen-set guard, and that guard does not cover every recursive case: {why} — a self-referential input recurses until the native stack overflows",
                 sample=dict(smp, rule="R01.3", cycle=members[:2]),
             )
+            # the cut ends cycles; it does not bound the DEPTH. The recursion descends once per level of nesting of the guarded
+            # items, and for types that nesting is not limited by the value size limit (a chain of slots whose types embed one
+            # another nests as deep as the program is long): a depth bound needs an explicit counter compared with a limit
+            depth_bounded = False
+            for mname in comp:
+                mb = fx.body(mname)
+                if not mb or not mb.get("hir"):
+                    continue
+                int_params = {p_["local"] for p_ in mb["hir"]["params"] if p_.get("p") == "Bind" and (p_.get("ty") or "") in ("usize", "u32", "u64", "u16", "u8")}
+                for x, _ in F.walk(mb["hir"]["value"]):
+                    if x.get("k") == "Binary" and x.get("op") in ("Lt", "Le", "Gt", "Ge") and (F.local_of(F.strip(x["l"])) in int_params or F.local_of(F.strip(x["r"])) in int_params):
+                        depth_bounded = True
+            rep.oblige(
+                depth_bounded,
+                "R01.3",
+                f"recursion-depth:{key}",
+                F.loc(fx.body(sorted(comp)[0])["span"]),
+                f"{members[0]} recurses once per level of nesting of what it converts; its seen set ends cycles but nothing bounds the depth (no counter compared with a limit), and that nesting is chosen by the input: a long enough chain exhausts the native stack",
+                sample={"rule": "R01.3", "cycle": members[:2], "depth_counter": depth_bounded},
+            )
         rep.oblige(
             row is not None,
             "R01.3",
